@@ -219,11 +219,37 @@ class SyntaxCheckInstance(Visitor):
             self._visit_expr(c, ctx)
 
     def _visit_list_comp(self, e: ListComp, ctx: _Ctx):
-        for target, iterable in zip(e.targets, e.iterables):
-            self._visit_expr(iterable, ctx)
+        # Every target of the comprehension is local to it.  The first
+        # iterable is evaluated in the enclosing scope; a later one runs
+        # inside the comprehension, where the targets of its own and of later
+        # stages are not bound yet -- even if the enclosing scope has a
+        # variable of that name (it is shadowed, not read).
+        pending = [self._binding_names(target) for target in e.targets]
+        for k, (target, iterable) in enumerate(zip(e.targets, e.iterables)):
+            iter_ctx = ctx
+            if k > 0:
+                unbound = set().union(*pending[k:]) - set().union(*pending[:k])
+                iter_env = _Env(ctx.env.env, terminated=ctx.env.terminated)
+                for name in unbound:
+                    if name in iter_env:
+                        iter_env.env[name] = False
+                iter_ctx = _Ctx(iter_env, ctx.within_call)
+            self._visit_expr(iterable, iter_ctx)
             env = self._visit_binding(target, ctx.env)
             ctx = _Ctx(env, ctx.within_call)
         self._visit_expr(e.elt, _Ctx(env, ctx.within_call))
+
+    def _binding_names(self, binding: Id | TupleBinding) -> set[NamedId]:
+        match binding:
+            case NamedId():
+                return { binding }
+            case TupleBinding():
+                names: set[NamedId] = set()
+                for elt in binding.elts:
+                    names |= self._binding_names(elt)
+                return names
+            case _:
+                return set()
 
     def _visit_list_ref(self, e: ListRef, ctx: _Ctx):
         self._visit_expr(e.value, ctx)
